@@ -99,12 +99,92 @@ def gen_history(rng, maxlen):
     return calls
 
 
+def gen_scenario(rng):
+    """Structured histories around node sharing: a mutable disjunction and a readonly node with the same children,
+    created in either order, before / after add_disjunct calls; complementary pairs and TRUE under max_arity."""
+    calls = []
+
+    def add(c):
+        c.setdefault("refs", []); c.setdefault("id", ""); c.setdefault("det", 0); c.setdefault("target", 0)
+        calls.append(c)
+        return len(calls)
+    atoms = [add({"op": "atom", "id": a, "named": 0}) for a in ("x", "y", "z")]
+    extra = add({"op": "and", "refs": [{"k": "c", "i": atoms[0], "s": 1}, {"k": "c", "i": atoms[1], "s": 0}], "name": ""})
+
+    def ref(i, s=1):
+        return {"k": "c", "i": i, "s": s}
+
+    def rnd_ref():
+        r = rng.random()
+        if r < 0.08:
+            return {"k": "T"}
+        if r < 0.14:
+            return {"k": "F"}
+        return ref(rng.choice(atoms + [extra]), 0 if rng.random() < 0.25 else 1)
+    S = []
+    for _ in range(rng.randint(1, 3)):
+        S.append(rnd_ref())
+    t = rng.randint(1, 6)
+    c1, c2, c3 = rnd_ref(), rnd_ref(), rnd_ref()
+    if t == 1:
+        m = add({"op": "or", "refs": S, "mutable": 1, "name": ""})
+        r = add({"op": "or", "refs": [dict(x) for x in S], "mutable": 0, "name": ""})
+        add({"op": "disjunct", "target": m, "refs": [c1]})
+        add({"op": "and", "refs": [ref(r), c2], "name": ""})
+    elif t == 2:
+        r = add({"op": "or", "refs": S, "mutable": 0, "name": ""})
+        m = add({"op": "or", "refs": [dict(x) for x in S], "mutable": 1, "name": ""})
+        add({"op": "disjunct", "target": m, "refs": [c1]})
+        add({"op": "or", "refs": [ref(r), c2], "mutable": 0, "name": ""})
+    elif t == 3:
+        m = add({"op": "or", "refs": S, "mutable": 1, "name": ""})
+        add({"op": "disjunct", "target": m, "refs": [c1]})
+        r = add({"op": "or", "refs": [dict(x) for x in S] + [dict(c1)], "mutable": 0, "name": ""})
+        add({"op": "disjunct", "target": m, "refs": [c2]})
+        add({"op": "and", "refs": [ref(r), c3], "name": ""})
+    elif t == 4:
+        a = rng.choice(atoms)
+        m = add({"op": "or", "refs": [ref(a)], "mutable": 1, "name": ""})
+        add({"op": "disjunct", "target": m, "refs": [ref(a, 0) if rng.random() < 0.6 else {"k": "T"}]})
+        add({"op": "disjunct", "target": m, "refs": [c1]})
+        add({"op": "and", "refs": [ref(m), c2], "name": ""})
+        add({"op": "disjunct", "target": m, "refs": [c3]})
+    elif t == 5:
+        a1 = add({"op": "and", "refs": S, "name": rng.choice(["", "n1"])})
+        a2 = add({"op": "and", "refs": [dict(x) for x in S], "name": rng.choice(["", "n2"])})
+        m = add({"op": "or", "refs": [ref(a1)], "mutable": 1, "name": ""})
+        add({"op": "or", "refs": [ref(a2), ref(a1, 0)], "mutable": 0, "name": ""})
+        add({"op": "disjunct", "target": m, "refs": [ref(a2, rng.randint(0, 1))]})
+    else:
+        m1 = add({"op": "or", "refs": S, "mutable": 1, "name": ""})
+        m2 = add({"op": "or", "refs": [dict(x) for x in S], "mutable": 1, "name": ""})
+        add({"op": "disjunct", "target": m1, "refs": [c1]})
+        add({"op": "and", "refs": [ref(m2), c2], "name": ""})
+        add({"op": "disjunct", "target": m2, "refs": [ref(m1)]})
+    # drop histories that would create a cycle through negation
+    for i, c in enumerate(calls, start=1):
+        if c["op"] == "disjunct" and c["refs"][0]["k"] == "c" and neg_dep(calls[:i], c["target"], c["target"]):
+            return None
+    return calls
+
+
+SC_OPTS = [{}, {"max_arity": 1}, {"max_arity": 2}, {"max_arity": 3}, {"keep_order": True}, {"keep_duplicates": True},
+           {"avoid_name_clash": True}, {"keep_duplicates": True, "max_arity": 2}]
+
+
 def run(ctx):
     rng = random.Random(ctx.seed + 1111)
     nh = ctx.pick(1200, 20000)
     H = []
     for i in range(nh):
         H.append((gen_history(rng, ctx.pick(7, 9)), OPTS[i % len(OPTS)] if i % 3 else {}))
+    nsc = 0
+    while nsc < ctx.pick(900, 12000):
+        c = gen_scenario(rng)
+        if c is None:
+            continue
+        H.append((c, SC_OPTS[nsc % len(SC_OPTS)]))
+        nsc += 1
     res = pl.run_jobs([("builder_history", {"calls": c, "opts": o}) for c, o in H], nproc=ctx.nproc, timeout=60,
                       chunksize=32)
     cases = []
